@@ -298,9 +298,12 @@ def getMetaInfo(text, log=None):
     """
     p = _MetaHTMLParser()
 
+    if isinstance(text, bytes):
+        # only ASCII compatible markup is looked for
+        text = text.decode('latin-1')
     try:
         p.feed(text)
-    except html.parser.HTMLParseError:
+    except getattr(html.parser, 'HTMLParseError', ValueError):
         pass
 
     if p.content_type:
@@ -342,6 +345,9 @@ def detectXMLEncoding(fp, log=None, includeDefault=True):  # noqa: C901
         - if BOM and xml declaration fail, utf-8 is returned according
           to XML 1.0.
     """
+    if isinstance(fp, bytes):
+        # sniffed bytewise
+        fp = fp.decode('latin-1')
     if isinstance(fp, str):
         fp = io.StringIO(fp)
 
